@@ -53,7 +53,7 @@ PROPS = {
     "C17": dict(module="MRB.Props.C17", level="proof", engines=["vmemprobe"],
                 profiles=[prof("vmem", 16, 200, features=["vmem"], seeds_thorough=2), prof("vmemseam", 5, 40, features=["vmem"], seeds_thorough=2), prof("vmemown", 5, 40, features=["vmem"], seeds_thorough=2),
                           prof("async", 8, 60, features=["async", "vmem"], binary="asyncdiff", seeds_thorough=2)],
-                gen_items=["pageSizeMul", "nextChunkVm", "nextChunkMutVm", "vmemCalls"],
+                gen_items=["pageSizeMul", "nextChunkVm", "nextChunkMutVm", "vmemCalls", "construction"],
                 trusted=["kernel mmap/munmap/sysconf behaviour is assumed", "page size 4096 in the harness"]),
-    "C18": dict(module="MRB.Props.C18", level="proof", profiles=[prof("construct", 500)], gen_items=[], trusted=SEQ_TRUST),
+    "C18": dict(module="MRB.Props.C18", level="proof", profiles=[prof("construct", 500)], gen_items=["construction"], trusted=SEQ_TRUST),
 }
